@@ -261,6 +261,16 @@ impl<
         }
     }
 
+    /// Reports whether the slot of `key` is held by an entry with a different conflict hash,
+    /// i.e. by another key that shares the index hash (exactly when `try_remove` refuses).
+    pub fn held_by_other(&self, key: &u64, conflict: u64) -> bool {
+        conflict != 0
+            && self.shards[(*key as usize) % NUM_OF_SHARDS]
+                .read()
+                .get(key)
+                .map_or(false, |item| item.conflict != conflict)
+    }
+
     pub fn expiration(&self, key: &u64) -> Option<Time> {
         self.shards[((*key) as usize) % NUM_OF_SHARDS]
             .read()
